@@ -542,7 +542,7 @@ theorem C12_kms_signing_profile_partial (cfg : KCfg) (hne : cfg.rootKey ≠ cfg.
   | some p => simp only [he] at hn; exact hk.good n p c he hroot hn
 
 def kmsCfg : KCfg := ⟨"rk", "sk"⟩
-def env0 : Env := ⟨0, false⟩
+def env0 : Env := { gen := 0, deadline := false }
 def kgFlags : Flags := ⟨false, true⟩
 
 /-- bootstrap; wipeout keys; bootstrap --keep_going -/
@@ -863,7 +863,7 @@ theorem C12_kms_wipeout_total_no_deadline (cfg : KCfg) (h : List KCmd) (hd : NoD
 
 /-- bootstrap; a rotation whose context expires while version 2 of the signing cryptoKey is being generated -/
 def kmsPendingHistory : List KCmd :=
-  [.bootstrap noFlags ⟨"rootA", "signA", 1, 2, 1000⟩ env0 false, .rotate noFlags ⟨"signA", none, 2000⟩ ⟨1, true⟩]
+  [.bootstrap noFlags ⟨"rootA", "signA", 1, 2, 1000⟩ env0 false, .rotate noFlags ⟨"signA", none, 2000⟩ { gen := 1, deadline := true }]
 
 /-- C12-K6 witness: the version left PENDING_GENERATION by the timed-out rotation is skipped by `wipeout keys`
     (which reports success), its generation completes afterwards, and it can sign. -/
@@ -871,6 +871,62 @@ theorem C12_kms_finding_pending_survives : ¬ C12_kms_wipeout_total := by
   intro hfull
   have h := hfull kmsCfg kmsPendingHistory noFlags false (by decide) [.settle] ⟨"sk", 2⟩
   revert h; decide
+
+/-! ### the state a version is created in, and what the response of CreateCryptoKeyVersion says
+
+Every `C12_kms_*` theorem above quantifies over the environments of the commands, which include the state
+CreateCryptoKeyVersion creates versions in (`Env.created`: PENDING_GENERATION with any countdown, ENABLED at once,
+DISABLED, …).  rotate.go never reads the state in the response (C10: `C10_kms_create_response_ignored`);
+bootstrap.go's waitForKeyGen does — it returns without polling when the response says ENABLED: -/
+
+/-- **bootstrap's shortcut on the response is sound** for a Cloud KMS whose response reports the state the new
+    version is in: creating a version and returning at once when the response says ENABLED gives the same state
+    and the same answer as creating it and polling (waitForKeyVersionGen returns at the first poll of an ENABLED
+    version; in every other created state the shortcut is not taken). -/
+theorem C12_kms_create_shortcut_is_poll (e : KmsH.Env) (s : Svc) (k : String) (hk : s.keys.contains k = true) :
+    createAndWait e s k =
+      ((waitGen e (s.create e k) (s.nextName k)).1,
+       if (waitGen e (s.create e k) (s.nextName k)).2 then some (s.nextName k) else none) :=
+  createAndWait_eq e s k hk
+
+/-- a version returned by the create-and-wait path of bootstrap exists and is ENABLED, whatever state it was
+    created in (a version created DISABLED, DESTROYED, … is never returned) -/
+theorem C12_kms_created_version_enabled (e : KmsH.Env) (s : Svc) (k : String) (hk : s.keys.contains k = true)
+    (n : KName) (h : (createAndWait e s k).2 = some n) :
+    n = s.nextName k ∧ (createAndWait e s k).1.has n = true ∧ ((createAndWait e s k).1.ver n).st = .enabled := by
+  rw [createAndWait_eq e s k hk] at h ⊢
+  obtain ⟨_, w2, _⟩ := waitGen_spec e (s.create e k) (s.nextName k)
+  by_cases hw : (waitGen e (s.create e k) (s.nextName k)).2 = true
+  · simp only [hw, if_true, Option.some.injEq] at h
+    subst h
+    exact ⟨rfl, w2 hw⟩
+  · simp [hw] at h
+
+def envE : KmsH.Env := { gen := 0, deadline := false, created := some .enabled }
+def envD : KmsH.Env := { gen := 0, deadline := false, created := some .disabled }
+
+/-- bootstrap; a rotation whose version is created ENABLED; one whose version is created DISABLED (refused at
+    the first poll, the version stays DISABLED); keys wiped; bootstrap --keep_going with versions created
+    DISABLED (fails: rk/2 is left DISABLED), then with versions created ENABLED (rk/3, sk/4 adopted at once). -/
+def kmsCreatedHistory : List KCmd :=
+  [.bootstrap noFlags ⟨"rootA", "signA", 1, 2, 1000⟩ env0 false,
+   .rotate noFlags ⟨"signA", none, 2000⟩ envE, .rotate noFlags ⟨"signA", none, 3000⟩ envD,
+   .wipeout noFlags false true,
+   .bootstrap kgFlags ⟨"rootA", "signA", 7, 8, 4000⟩ envD false,
+   .bootstrap kgFlags ⟨"rootA", "signA", 7, 8, 5000⟩ envE false]
+
+example :
+    (kRun kmsCfg KState.init (kmsCreatedHistory.take 2)).ca.primarySigning = ⟨"sk", 2⟩ ∧
+    (kStep kmsCfg (kRun kmsCfg KState.init (kmsCreatedHistory.take 2)) (.rotate noFlags ⟨"signA", none, 3000⟩ envD)).2 = false ∧
+    ((kRun kmsCfg KState.init (kmsCreatedHistory.take 3)).svc.ver? ⟨"sk", 3⟩).map (·.st) = some .disabled ∧
+    (kRun kmsCfg KState.init (kmsCreatedHistory.take 3)).ca.primarySigning = ⟨"sk", 2⟩ ∧
+    (kStep kmsCfg (kRun kmsCfg KState.init (kmsCreatedHistory.take 4)) (.bootstrap kgFlags ⟨"rootA", "signA", 7, 8, 4000⟩ envD false)).2 = false ∧
+    ((kRun kmsCfg KState.init (kmsCreatedHistory.take 5)).svc.ver? ⟨"rk", 2⟩).map (·.st) = some .disabled ∧
+    (kStep kmsCfg (kRun kmsCfg KState.init (kmsCreatedHistory.take 5)) (.bootstrap kgFlags ⟨"rootA", "signA", 7, 8, 5000⟩ envE false)).2 = true ∧
+    (kRun kmsCfg KState.init kmsCreatedHistory).ca.primaryRoot = ⟨"rk", 3⟩ ∧
+    (kRun kmsCfg KState.init kmsCreatedHistory).ca.primarySigning = ⟨"sk", 4⟩ ∧
+    (kRun kmsCfg KState.init kmsCreatedHistory).svc.live = [⟨"rk", 3⟩, ⟨"sk", 4⟩] := by
+  decide
 
 /-! ### the listing scan of bootstrap is C20's -/
 
@@ -894,7 +950,7 @@ theorem C12_kms_scan_is_C20_scanPage (s : Svc) (ring k : String) :
     keep_going (the key ring and the cryptoKeys are still there); rotate -/
 def kmsGoodHistory : List KCmd :=
   [.bootstrap noFlags ⟨"GCE-cc-tcb-root", "GCE-uefi-signer", 1, 2, 1000⟩ env0 false,
-   .rotate noFlags ⟨"GCE-uefi-signer", none, 2000⟩ env0, .rotate noFlags ⟨"GCE-uefi-signer", none, 3000⟩ ⟨2, false⟩,
+   .rotate noFlags ⟨"GCE-uefi-signer", none, 2000⟩ env0, .rotate noFlags ⟨"GCE-uefi-signer", none, 3000⟩ { gen := 2, deadline := false },
    .ext .expire, .wipeout noFlags true true,
    .bootstrap kgFlags ⟨"GCE-cc-tcb-root", "GCE-uefi-signer", 1, 2, 5000⟩ env0 true,
    .rotate noFlags ⟨"GCE-uefi-signer", none, 6000⟩ env0]
